@@ -145,6 +145,8 @@ def check_case(case):
     if got != expected_trunk(logic, prem, con):
         bad(f'trunk|{fam}', f'trunk nodes {got} != premises + conclusion with the family marking')
     snap = {tab[0]: [id(n) for n in tab[0]]}
+    ticksnap = {tab[0]: {id(n) for n in tab[0] if tab[0].is_ticked(n)}}
+    ticks_expected = 0
     was_closed = set()
     hist_len = 0
     new_nodes_expected = 0
@@ -215,6 +217,14 @@ def check_case(case):
                     sc = tab.stat(b, 'STEP_CLOSED')
                     if not isinstance(sc, int) or sc > cur or sc < last:
                         bad('stat-step-closed', f'step {info["steps"]}: STEP_CLOSED {sc}, last node added at {last}, current {cur}')
+            oldticks = dict(ticksnap)
+            for b in tab:
+                now = {id(n) for n in b if b.is_ticked(n)}
+                before = oldticks.get(b, oldticks.get(b.parent, set()) if b.parent is not None else set())
+                ticks_expected += len(now - before)
+                if before - now:
+                    bad('untick', f'step {info["steps"]}: a ticked node became unticked')
+                ticksnap[b] = now
             snap = {b: [id(n) for n in b] for b in tab}
             was_closed = {b for b in tab if b.closed}
             opens = [b for b in tab if not b.closed]
@@ -237,6 +247,8 @@ def check_case(case):
         bad('events|branch_close', f'{ev["branch_close"]} AFTER_BRANCH_CLOSE events for {nclosed} closed branches')
     if ev['node_add'] != new_nodes_expected:
         bad('events|node_add', f'{ev["node_add"]} AFTER_NODE_ADD events for {new_nodes_expected} appended nodes')
+    if ev['node_tick'] != ticks_expected:
+        bad('events|node_tick', f'{ev["node_tick"]} AFTER_NODE_TICK events for {ticks_expected} newly ticked (branch, node) pairs')
     if ev['finish'] != 1:
         bad('events|finish', f'{ev["finish"]} AFTER_FINISH events')
     # tree
